@@ -9,7 +9,6 @@ import (
 	"math/rand"
 
 	"github.com/csgura/fp"
-	"github.com/csgura/fp/try"
 )
 
 // ---- C01 / C02: Try / Option / Either programs against EffectSpec.tla ----
@@ -94,7 +93,7 @@ func effErrName(err error) string {
 	if err == fp.ErrOptionEmpty {
 		return "none"
 	}
-	if pe, ok := err.(try.Panic); ok {
+	if pe, ok := err.(interface{ Panic() any }); ok {
 		return "panic:" + fmt.Sprint(pe.Panic())
 	}
 	return "?"
